@@ -477,6 +477,9 @@ func init() {
 		return errorsAs(fr, a[0].(iface), a[1].(iface))
 	}
 	intrinsics["internal/reflectlite.TypeOf"] = func(fr *frame, a []value) value {
+		if fr.i.initing > 0 {
+			return iface{} // package initialisers only stash the type; errors.As is modelled
+		}
 		panic(unsupported("reflectlite.TypeOf"))
 	}
 
